@@ -19,7 +19,10 @@ The real side is always `numdb.read(io.StringIO(text)).info(number)` / `.split(n
 
 Checks per (file, number): `concat` (parts join to the number), `rule` (parts and properties equal the
 oracle, including dict order), `unmatched-tail` (when the oracle finds no matching range at some level
-the real result ends with `(remainder, {})`), `split` (split = first components of info).
+the real result ends with `(remainder, {})`), `split` (split = first components of info), and
+`repeat-rule` / `repeat-split`: the statement holds for every lookup, not only for the first one of a number -
+after the caller has consumed what the first lookup returned (the list emptied the way `isbn.split` pops it,
+the property dictionaries cleared and overwritten) the same lookup must again give the prescribed answer.
 
     from c10 import search; search(seed, 'quick' | 'thorough')
     python c10.py [quick|thorough]      (seed from VERIF_SEED, default 1)
@@ -334,7 +337,8 @@ def search(seed, tier):
     n_oui = 300 if thorough else 60
     n_gen_files = 6000 if thorough else 1000
     res = {'cases': 0, 'distinct_nontrivial': 0, 'failing': [], 'samples': [],
-           'by_check': {'concat': 0, 'rule': 0, 'unmatched-tail': 0, 'split': 0, 'tree': 0},
+           'by_check': {'concat': 0, 'rule': 0, 'unmatched-tail': 0, 'split': 0, 'tree': 0, 'repeat-rule': 0,
+                        'repeat-split': 0},
            'by_class': {}, 'files': 0, 'generated_files': 0, 'seed': seed, 'tier': tier}
     nontrivial = set()
 
@@ -372,6 +376,34 @@ def search(seed, tier):
             res['by_check']['split'] += 1
             if split != [p for p, _ in expected]:
                 fail('NumDB.split', args, split, [p for p, _ in expected], 'split')
+            # the caller consumes / scribbles over everything it got, then asks again
+            try:
+                for _p, d in info:
+                    if isinstance(d, dict):
+                        d.clear()
+                        d['scribbled'] = 'over'
+                if isinstance(info, list):
+                    del info[:]
+                if isinstance(split, list):
+                    while split:
+                        split.pop()
+            except Exception:  # noqa: B902  (results that cannot be mutated cannot be aliased either)
+                pass
+            try:
+                info2 = db.info(q)
+                split2 = db.split(q)
+            except Exception as e:  # noqa: B902
+                fail('NumDB.info', args, '%s: %s on the second lookup' % (type(e).__name__, e), 'no exception', 'repeat-rule')
+                continue
+            res['by_check']['repeat-rule'] += 1
+            observed2 = [(p, list(d.items())) for p, d in info2]
+            if observed2 != expected:
+                fail('NumDB.info', args, 'second lookup, after the first result was emptied by the caller: %r' % (observed2,),
+                     expected, 'repeat-rule')
+            res['by_check']['repeat-split'] += 1
+            if split2 != [p for p, _ in expected]:
+                fail('NumDB.split', args, 'second lookup, after the first result was emptied by the caller: %r' % (split2,),
+                     [p for p, _ in expected], 'repeat-split')
             if len(observed) > 1 or any(d for _, d in observed):
                 nontrivial.add((label, q))
             if len(res['samples']) < 12 and rnd.random() < 0.002 + (0.2 if not res['samples'] else 0):
